@@ -1,4 +1,3 @@
-(* WIP *)
 (* Model of the topic index of topics.go (TopicsIndex and its particle tree), AFTER the fixes
    d67a363 49432f1 1c93a7c 4b7c369 in /repo.  A transliteration: same case splits, same order of effects.
    Pointers: a particle is identified by its path from the root (parent pointers become the path);
